@@ -688,7 +688,12 @@ fn parent_main(engine: &dyn Engine, tier: Tier) -> ! {
     if engine.form() != Form::E {
         // every explored trace is executed on the implementation
         let traces = counters.get("traces").copied().unwrap_or(evaluations);
-        coverage.entry("states").or_insert(json!(counters.get("states").copied().unwrap_or(evaluations).max(1)));
+        coverage.entry("states").or_insert(json!(counters
+            .get("states")
+            .copied()
+            .or(maxes.get("states").copied())
+            .unwrap_or(evaluations)
+            .max(1)));
         coverage.entry("transitions").or_insert(json!(counters.get("transitions").copied().unwrap_or(evaluations).max(1)));
         coverage.insert("traces_validated_against_impl".into(), json!(traces));
     }
